@@ -14,6 +14,7 @@ Decided statically (necessary structural conditions, for every text at once):
   C01.init            no constructor on the parse path reads an attribute it has not yet set
   C01.attr            attributes read from parse results of varying node class exist on every class the
                       producing function can return
+  C01.index           constant indices on the parse path ([0], [-1]) are dominated by a length test
   C01.raise           everything raised on the parse path is CklSyntaxError(msg, pos) with a position;
                       the end-of-input message agrees with the REPL's continuation test
   C01.pure            the parse path touches no ambient state (same text, same outcome)
@@ -72,6 +73,7 @@ def run(ctx):
     attr(ctx, model, parser_mod)
     raises(ctx, model, cg, reach)
     pure(ctx, model, cg, reach)
+    index(ctx, model, parser_mod, lexer_cls)
 
 
 # --------------------------------------------------------------------------------------------------
@@ -646,3 +648,35 @@ def pure(ctx, model, cg, reach):
 def _locals(f):
     from ..callgraph import local_names
     return local_names(f.node)
+
+
+def index(ctx, model, parser_mod, lexer_cls):
+    """Constant indices ([0], [-1], ...) on the parse path need a dominating length test (IndexError otherwise)."""
+    from . import C13
+
+    class Proxy:
+        """Routes C13's index/zero rule into this property's rule names."""
+        def __init__(self, ctx):
+            self._c = ctx
+
+        def __getattr__(self, k):
+            return getattr(self._c, k)
+
+        def ob(self, rule, *a, **k):
+            return self._c.ob(rule.replace("C13.", "C01."), *a, **k)
+
+        def check(self, rule, *a, **k):
+            return self._c.check(rule.replace("C13.", "C01."), *a, **k)
+
+        def fail(self, rule, *a, **k):
+            return self._c.fail(rule.replace("C13.", "C01."), *a, **k)
+
+    engine = ctx.engine
+    px = Proxy(ctx)
+    n = 0
+    for f in list(parser_mod.funcs.values()) + list(lexer_cls.methods.values()):
+        ip = engine.interp(f)
+        C13.zero_and_index(px, engine, f, ip)
+        n += 1
+    if ctx.counts.get("C01.index", 0) < 4:
+        ctx.broken("C01.index", f"only {ctx.counts.get('C01.index', 0)} constant-index sites examined")
